@@ -327,7 +327,7 @@ def _symm(ctx, prop):
     if prop in ('C09', 'C11', 'C15'):
         r, nh, npth = symmetry.rule_SYMM(ctx)
         r.floor('divided-difference helpers', nh, 15)
-        r.floor('paths', npth, 80)
+        r.floor('paths', npth, 40)
         out.append(r)
     if prop in ('C09', 'C15'):
         r, npairs = symmetry.rule_ALT(ctx)
